@@ -39,7 +39,13 @@ func (c *ConstantOfShape) Init(n *onnx.NodeProto) error {
 				return err
 			}
 
-			c.value = tensor.New(tensor.WithBacking(t.Data()))
+			if t.IsScalar() {
+				// The data of a rank-0 tensor is a scalar, not a slice.
+				c.value = tensor.New(tensor.FromScalar(t.ScalarValue()))
+			} else {
+				c.value = tensor.New(tensor.WithBacking(t.Data()))
+			}
+
 			if c.value.Len() != 1 {
 				return ops.ErrInvalidTensor("expected tensor to have one element", c)
 			}
